@@ -380,6 +380,12 @@ pub fn check_session(s: &Session, rec: &mut CaseRec) -> Verdict {
                         }
                     }
                 }
+                let is_command = |t: &str| t.split_ascii_whitespace().next().map(|w| COMMANDS.iter().any(|c| w.eq_ignore_ascii_case(c))).unwrap_or(true);
+                if kind == CallKind::Line && e.located && e.line.is_none() && e.caret.is_empty() && text.as_deref().map(|t| !is_command(t)).unwrap_or(false) {
+                    // the error points into the statement line just typed (commands such as CONT install no
+                    // statement and have nothing to show), and the host has its text
+                    return Verdict::fail("typed-line-error-renders-nothing", format!("intent #{} {:?}: error {:?} names no line and renders nothing", ii, intent, e.text));
+                }
                 if kind == CallKind::Continue && e.line.is_none() {
                     if let Some(n) = sess.line_before_last_cont {
                         // the failing statement stood on a program line: the error is "IN" some line
